@@ -1759,20 +1759,20 @@ Proof.
   (* a step of one component *)
   assert (Sub : forall p o' p', Inv e p -> wf_op p o' -> step e p o' = inl p' -> Inv e p')
     by (intros; eapply step_inv; eassumption).
-  destruct o as [raw i c d|hc i u|hc i f v|hc i f|hc i|hc i|n]; simpl in H.
-  - destruct (is_gobj e c) as [g|] eqn:Eg; simpl in H; [|discriminate]. destruct g.
-    + destruct (step e (ch_glob s) (OAdd raw i c d)) as [r|] eqn:Er; simpl in H; [|discriminate].
-      inversion H; subst s'. simpl. split; [split; [exact HT | apply (Sub _ _ _ HG I Er)] | reflexivity].
-    + destruct (step e (ch_top s) (OAdd raw i c d)) as [r|] eqn:Er; simpl in H; [|discriminate].
-      inversion H; subst s'. simpl. split; [split; [apply (Sub _ _ _ HT I Er) | exact HG] | reflexivity].
-  - destruct (is_gobj e hc) as [g|] eqn:Eg; simpl in H; [|discriminate].
+  destruct o as [raw i c d|hc i u|hc i f v|hc i f|hc i|hc i|n]; cbn [ch_step] in H.
+  - destruct (is_gobj e c) as [g|] eqn:Eg; cbn [bind] in H; [|discriminate]. destruct g.
+    + destruct (step e (ch_glob s) (OAdd raw i c d)) as [r|] eqn:Er; cbn [bind] in H; [|discriminate].
+      inversion H; subst s'. simpl. split; [split; [exact HT | apply (Sub (ch_glob s) (OAdd raw i c d) r HG I Er)] | reflexivity].
+    + destruct (step e (ch_top s) (OAdd raw i c d)) as [r|] eqn:Er; cbn [bind] in H; [|discriminate].
+      inversion H; subst s'. simpl. split; [split; [apply (Sub (ch_top s) (OAdd raw i c d) r HT I Er) | exact HG] | reflexivity].
+  - destruct (is_gobj e hc) as [g|] eqn:Eg; cbn [bind] in H; [|discriminate].
     destruct (is_gobj_ok _ _ _ Eg) as [ci [Hci ->]]. simpl in Hwf. rewrite Hci in Hwf.
     destruct Hwf as [Hnd Hwf]. destruct (c_gobj ci).
-    + destruct (update_obj e (ch_glob s) hc i u) as [r|] eqn:Er; simpl in H; [|discriminate].
+    + destruct (update_obj e (ch_glob s) hc i u) as [r|] eqn:Er; cbn [bind] in H; [|discriminate].
       inversion H; subst s'. simpl. split; [split; [exact HT|] | reflexivity].
       apply (Sub (ch_glob s) (OUpdate hc i u) r HG); [split; assumption | exact Er].
-    + match type of H with (bind ?x _) = _ => destruct x as [top|] eqn:Etop; simpl in H; [|discriminate] end.
-      destruct (update_obj e top hc i u) as [r|] eqn:Er; simpl in H; [|discriminate].
+    + match type of H with (bind ?x _) = _ => destruct x as [top|] eqn:Etop; cbn [bind] in H; [|discriminate] end.
+      destruct (update_obj e top hc i u) as [r|] eqn:Er; cbn [bind] in H; [|discriminate].
       inversion H; subst s'. simpl. split; [split; [|exact HG] | reflexivity].
       assert (Htop : Inv e top /\ (u = [] \/ gty top i = Some hc)).
       { destruct (aget N.eqb i (s_type (ch_base s))) as [bc|] eqn:Eb.
@@ -1790,29 +1790,29 @@ Proof.
           destruct Hwf as [->|[Hx|[_ Hx]]]; auto. unfold gty in Hx. congruence. }
       destruct Htop as [HItop Hw].
       apply (Sub top (OUpdate hc i u) r HItop); [split; assumption | exact Er].
-  - destruct (is_gobj e hc) as [g|] eqn:Eg; simpl in H; [|discriminate]. destruct g.
-    + destruct (set_field e (ch_glob s) i f v) as [r|] eqn:Er; simpl in H; [|discriminate].
+  - destruct (is_gobj e hc) as [g|] eqn:Eg; cbn [bind] in H; [|discriminate]. destruct g.
+    + destruct (set_field e (ch_glob s) i f v) as [r|] eqn:Er; cbn [bind] in H; [|discriminate].
       inversion H; subst s'. simpl. split; [split; [exact HT | apply (Sub (ch_glob s) (OSet hc i f v) r HG I Er)] | reflexivity].
-    + destruct (set_field e (ch_top s) i f v) as [r|] eqn:Er; simpl in H; [|discriminate].
+    + destruct (set_field e (ch_top s) i f v) as [r|] eqn:Er; cbn [bind] in H; [|discriminate].
       inversion H; subst s'. simpl. split; [split; [apply (Sub (ch_top s) (OSet hc i f v) r HT I Er) | exact HG] | reflexivity].
-  - destruct (is_gobj e hc) as [g|] eqn:Eg; simpl in H; [|discriminate]. destruct g.
-    + destruct (unset_field e (ch_glob s) i f) as [r|] eqn:Er; simpl in H; [|discriminate].
+  - destruct (is_gobj e hc) as [g|] eqn:Eg; cbn [bind] in H; [|discriminate]. destruct g.
+    + destruct (unset_field e (ch_glob s) i f) as [r|] eqn:Er; cbn [bind] in H; [|discriminate].
       inversion H; subst s'. simpl. split; [split; [exact HT | apply (Sub (ch_glob s) (OUnset hc i f) r HG I Er)] | reflexivity].
-    + destruct (unset_field e (ch_top s) i f) as [r|] eqn:Er; simpl in H; [|discriminate].
+    + destruct (unset_field e (ch_top s) i f) as [r|] eqn:Er; cbn [bind] in H; [|discriminate].
       inversion H; subst s'. simpl. split; [split; [apply (Sub (ch_top s) (OUnset hc i f) r HT I Er) | exact HG] | reflexivity].
-  - destruct (is_gobj e hc) as [g|] eqn:Eg; simpl in H; [|discriminate].
+  - destruct (is_gobj e hc) as [g|] eqn:Eg; cbn [bind] in H; [|discriminate].
     destruct (is_gobj_ok _ _ _ Eg) as [ci [Hci ->]]. simpl in Hwf. rewrite Hci in Hwf. destruct (c_gobj ci).
-    + destruct (delete e (ch_glob s) hc i) as [r|] eqn:Er; simpl in H; [|discriminate].
+    + destruct (delete e (ch_glob s) hc i) as [r|] eqn:Er; cbn [bind] in H; [|discriminate].
       inversion H; subst s'. simpl. split; [split; [exact HT | apply (Sub (ch_glob s) (ODelete hc i) r HG Hwf Er)] | reflexivity].
-    + destruct (delete e (ch_top s) hc i) as [r|] eqn:Er; simpl in H; [|discriminate].
+    + destruct (delete e (ch_top s) hc i) as [r|] eqn:Er; cbn [bind] in H; [|discriminate].
       inversion H; subst s'. simpl. split; [split; [apply (Sub (ch_top s) (ODelete hc i) r HT Hwf Er) | exact HG] | reflexivity].
-  - destruct (is_gobj e hc) as [g|] eqn:Eg; simpl in H; [|discriminate].
+  - destruct (is_gobj e hc) as [g|] eqn:Eg; cbn [bind] in H; [|discriminate].
     destruct (is_gobj_ok _ _ _ Eg) as [ci [Hci ->]]. simpl in Hwf. rewrite Hci in Hwf. destruct (c_gobj ci).
-    + destruct (discard e (ch_glob s) hc i) as [r|] eqn:Er; simpl in H; [|discriminate].
+    + destruct (discard e (ch_glob s) hc i) as [r|] eqn:Er; cbn [bind] in H; [|discriminate].
       inversion H; subst s'. simpl. split; [split; [exact HT | apply (Sub (ch_glob s) (ODiscard hc i) r HG Hwf Er)] | reflexivity].
-    + destruct (discard e (ch_top s) hc i) as [r|] eqn:Er; simpl in H; [|discriminate].
+    + destruct (discard e (ch_top s) hc i) as [r|] eqn:Er; cbn [bind] in H; [|discriminate].
       inversion H; subst s'. simpl. split; [split; [apply (Sub (ch_top s) (ODiscard hc i) r HT Hwf Er) | exact HG] | reflexivity].
-  - destruct (delist (ch_top s) n) as [r|] eqn:Er; simpl in H; [|discriminate].
+  - destruct (delist (ch_top s) n) as [r|] eqn:Er; cbn [bind] in H; [|discriminate].
     inversion H; subst s'. simpl. split; [split; [apply (Sub (ch_top s) (ODelist n) r HT I Er) | exact HG] | reflexivity].
 Qed.
 
